@@ -36,7 +36,7 @@ CLAIMED = {
         note='Bounds as C05. Differential between two routes through the real code; the solver explores the grammar exhaustively within the bound and decides the impossible-call escape.' + TRUST,
         ref='4/C06'),
     'C07': dict(
-        text='(a) a table of adversarial sources (55 statement constructs x 7 function kinds x forwarding call on/off, 44 special objects incl. builtins, C callables, classes, partials, uncallable partials) and (b) a finite corpus of callables walked from importable modules: the three retrieval entry points must return an UpgradedSignature exactly when inspect.signature returns and raise the same exception type otherwise; for plain functions z3 decides over all call shapes that the result only narrows the own def-list; (c) the Sphinx hook returns the evaluated signature strings and never raises on a fixture module.',
+        text='(a) a table of adversarial sources (55 statement constructs x 7 function kinds x forwarding call on/off, 50 special objects (mock-like catch-all __getattr__ objects included) incl. builtins, C callables, classes, partials, uncallable partials) and (b) a finite corpus of callables walked from importable modules: the three retrieval entry points must return an UpgradedSignature exactly when inspect.signature returns and raise the same exception type otherwise; for plain functions z3 decides over all call shapes that the result only narrows the own def-list; (c) the Sphinx hook returns the evaluated signature strings and never raises on a fixture module.',
         note='Bounds: quick = every single and ordered pair of the 55 constructs, 21 modules (~700 callables), 27 fixture names; thorough = the same pairs, ~120 modules (~7 400 callables). The corpus part is a finite enumeration: the solver decides only the call dimension there.' + TRUST,
         ref='4/C07'),
     'C08': dict(
